@@ -111,7 +111,7 @@ func (r *FnRun) builtin(st *State, x *ssa.Call, bi *ssa.Builtin, args []Val) Val
 
 // calleeEnv binds the callee's parameter names to the argument values.
 func (r *FnRun) calleeEnv(st, old *State, callee *ssa.Function, args []Val) *Env {
-	env := &Env{r: r, st: st, old: old, vars: map[string]Val{}, vtypes: map[string]types.Type{}}
+	env := &Env{r: r, st: st, old: old, vars: map[string]Val{}, vtypes: map[string]types.Type{}, nm: st}
 	if callee.Pkg != nil {
 		env.pkg = callee.Pkg.Pkg
 	}
@@ -216,6 +216,7 @@ type modSpec struct {
 	ranges []modRange          // raw memory (width arrays)
 	fields map[string][]Term   // field array -> object addresses whose entry may change
 	all    bool
+	whole  map[string]bool // arrays that may change everywhere
 }
 
 func (r *FnRun) modSpecOf(env *Env, c *FuncContract) *modSpec {
@@ -228,6 +229,13 @@ func (r *FnRun) modSpecOf(env *Env, c *FuncContract) *modSpec {
 			ms.all = true
 			return ms
 		}
+		if strings.HasPrefix(m, "array(") && strings.HasSuffix(m, ")") {
+			if ms.whole == nil {
+				ms.whole = map[string]bool{}
+			}
+			ms.whole[strings.TrimSpace(m[6:len(m)-1])] = true
+			continue
+		}
 		ex, err := ParseExpr("f(" + m + ")")
 		if err != nil {
 			panic(unsupported("bad modifies clause: " + err.Error()))
@@ -236,6 +244,16 @@ func (r *FnRun) modSpecOf(env *Env, c *FuncContract) *modSpec {
 			if call, ok := a.(*ECall); ok {
 				if id, ok := call.Fn.(*EIdent); ok && id.Name == "bytes" {
 					ms.ranges = append(ms.ranges, modRange{env.evalTerm(call.Args[0]), env.evalTerm(call.Args[1])})
+					continue
+				}
+				if id, ok := call.Fn.(*EIdent); ok && id.Name == "array" {
+					// array(F!pkg_Type!field): the whole field array may change
+					nm := strings.TrimSpace(m[strings.Index(m, "array(")+6:])
+					nm = strings.TrimSuffix(strings.TrimSpace(nm), ")")
+					if ms.whole == nil {
+						ms.whole = map[string]bool{}
+					}
+					ms.whole[nm] = true
 					continue
 				}
 				if id, ok := call.Fn.(*EIdent); ok && id.Name == "object" {
@@ -318,6 +336,9 @@ func inRanges(a Term, ranges []modRange) Term {
 
 // mayChange: address a of array m is covered by the modifies specification.
 func (ms *modSpec) mayChange(m string, a Term) Term {
+	if ms.whole[m] {
+		return True
+	}
 	if strings.HasPrefix(m, "F!") {
 		var ds []Term
 		for _, b := range ms.fields[m] {
@@ -329,6 +350,9 @@ func (ms *modSpec) mayChange(m string, a Term) Term {
 }
 
 func (ms *modSpec) touches(m string) bool {
+	if ms.whole[m] {
+		return true
+	}
 	if strings.HasPrefix(m, "F!") {
 		return len(ms.fields[m]) > 0
 	}
@@ -380,6 +404,10 @@ func (r *FnRun) frameGoals(o *Outcome) {
 	ms := r.modSpecOf(env, r.C)
 	if ms.all {
 		return
+	}
+	// lock-protected state may also be changed by other threads
+	for _, l := range r.C.Locks {
+		r.addProtects(env, l, ms)
 	}
 	for _, m := range allArrays(o.St) {
 		if o.St.mem[m].S == r.arr(r.Entry, m).S {
